@@ -67,6 +67,27 @@ Theorem list_abort_restores c es d tag cs : l_run (l_new c) es = Some d ->
   d_snap d' = d_snap d /\ d_oid d' = d_oid d /\ d_buf d' = d_buf d /\ d_cp d' = d_cp d.
 Proof. apply abort_restores_anywhere; [apply id_import_export|apply l_local_id|apply l_local_not_tx]. Qed.
 
+(* ---------- C10 at datatype level ---------- *)
+Definition c_import := dt_import cstate ccall cstate id_ id_.
+Definition m_import := dt_import mstate mcall mstate id_ id_.
+Definition l_import := dt_import lstate lcall lstate id_ id_.
+Theorem counter_restored_indistinguishable c es0 d fresh es : c_run (c_new c) es0 = Some d ->
+  let r := c_import fresh (d_snap d) (d_oid d) in
+  d_snap r = d_snap d /\ d_oid r = d_oid d /\
+  match c_run d es, c_run r es with Some d', Some r' => d_snap r' = d_snap d' /\ d_oid r' = d_oid d' | None, None => True | _, _ => False end.
+Proof. apply restored_is_indistinguishable_anywhere; [apply id_import_export|apply c_local_id|apply c_local_not_tx]. Qed.
+Theorem map_restored_indistinguishable c es0 d fresh es : m_run (m_new c) es0 = Some d ->
+  let r := m_import fresh (d_snap d) (d_oid d) in
+  d_snap r = d_snap d /\ d_oid r = d_oid d /\
+  match m_run d es, m_run r es with Some d', Some r' => d_snap r' = d_snap d' /\ d_oid r' = d_oid d' | None, None => True | _, _ => False end.
+Proof. apply restored_is_indistinguishable_anywhere; [apply id_import_export|apply m_local_id|apply m_local_not_tx]. Qed.
+Theorem list_restored_indistinguishable c es0 d fresh es : l_run (l_new c) es0 = Some d ->
+  let r := l_import fresh (d_snap d) (d_oid d) in
+  d_snap r = d_snap d /\ d_oid r = d_oid d /\
+  match l_run d es, l_run r es with Some d', Some r' => d_snap r' = d_snap d' /\ d_oid r' = d_oid d' | None, None => True | _, _ => False end.
+Proof. apply restored_is_indistinguishable_anywhere; [apply id_import_export|apply l_local_id|apply l_local_not_tx]. Qed.
+
+
 (* a committed transaction is one contiguous unit headed by its length (list instance; the
    statement is generic in the kernel, see DatatypeFacts.commit_is_unit) *)
 Theorem list_commit_is_unit c es d tag cs : l_run (l_new c) es = Some d ->
